@@ -375,7 +375,8 @@ ImplNarrowAC(V, ac, pol) == ImplConstrain(V, ImplApply(IF pol THEN ac ELSE ImplI
 ImplNarrow(V, c, pol) == ImplNarrowAC(V, ImplOfCond(c), pol)
 
 (***************************************************************************)
-(* Known deviations of the current code (see known_findings.jsonl)          *)
+(* Known deviations of the current code (see known_findings.jsonl,         *)
+(* proposed/C02-findings.jsonl): class keys printed as "dev:<key>"         *)
 (***************************************************************************)
 RECURSIVE CondMentions(_, _), CondHasKind(_, _), CondTestsParametrised(_)
 \* the condition is a TypeIs test against a parametrised generic / tuple shape
@@ -389,7 +390,7 @@ CondMentions(c, cls) ==
     \/ c.kind = "typeis" /\ Mentions(c.t, cls)
     \/ \E i \in 1..Len(c.subs) : CondMentions(c.subs[i], cls)
 
-\* The objects clause N1 says must be kept but are not in the narrowed type R
+\* The counterexamples of RefKeeps: objects clause N1 says must be kept but which are not in the narrowed type R
 Lost(V, c, pol, R) ==
     {o \in NObjects : Member(o, V) /\ EqDomain(c, o) /\ HoldsCode(c, o) = B2C(pol) /\ ~Member(o, R)}
 
